@@ -28,7 +28,8 @@ RULE = ("values: kernel class x parameters (delta in [2e-3,1e3], half of them wi
         "fails.  correctors: kernel (7 built-ins; user nn.Modules with rho''>0: x+cx^2/2, expm1(cx), x log1p(x); "
         "rho''=0: x, cx; rho''<0: log1p(cx)/c, sqrt(x+c)-sqrt(c); mixed sign: x+a((x-m)^3+m^3)/3, x+c sin(wx)/w, "
         "x+c relu(x-m)^2/2) x R of shape (...,d), d=1..6, 1..8 rows of classes {0, |R|^2==T exactly, T(1+-2^k eps), "
-        "below T, above T, generic 1e-2..30 sqrt(T), tiny} x J=(R.numel(),P) P=1..4 with column scales 1e-2..1e2; "
+        "below T, above T, generic 1e-2..30 sqrt(T), tiny} x J=(R.numel(),P) P=1..4 with column scales 1e-2..1e2, called "
+        "under torch.no_grad() as optimizer.step does (2/3) or with grad enabled (1/3); "
         "oracle rho', rho'' from the harness's own closed forms (mpmath): J'^T R' == sum_i rho'_i J_i^T R_i for "
         "FastTriggs and Triggs; Triggs per row: J'_i^T J'_i == rho' J_i^T J_i + 2 rho'' J_i^T R_i R_i^T J_i where "
         "rho''>0 and R_i!=0, (R'_i,J'_i) == FastTriggs's elsewhere (rows where the sign of rho'' changes within "
@@ -88,7 +89,7 @@ def _thr(spec):
 _nice = st.builds(lambda m, e: (512 + m) / 512.0 * 2.0 ** e, st.integers(0, 511), st.integers(-9, 8))
 _param = st.one_of(_nice, st.floats(-2.7, 3.0).map(lambda v: 10.0 ** v))
 _c = st.floats(-2.0, 2.0).map(lambda v: 10.0 ** v)
-_sq = st.builds(lambda m, e: ((32 + m) / 32.0 * 2.0 ** e) ** 2, st.integers(0, 31), st.integers(-5, 5))   # exact squares
+_sq = st.builds(lambda m, e: ((32 + m) / 32.0 * 2.0 ** e) ** 2, st.integers(0, 31), st.integers(-5, 4))   # exact squares in [1e-3, 1e3]
 
 
 @st.composite
@@ -194,19 +195,21 @@ class Values(Sub):
                 xg = x.clone().requires_grad_(True)
                 slope, = torch.autograd.grad(mod(xg).sum(), xg)
         rec.label(k, dtype, *("x:" + c for c in sorted(set(case["cls"]))))
+        if k == "Huber" and any(float(v) ** 0.5 == spec["p"][0] and float(v) == spec["p"][0] ** 2 for v in tu.npy(x).reshape(-1)):
+            rec.label("huber:sqrt(x)==delta exactly")
         if {"zero", "thr"} & set(case["cls"]):
             rec.nt((k, dtype, tuple(sorted(set(case["cls"]))), len(case["shape"]), min(len(case["x"]), 4)))
         if not rec.check(isinstance(y, torch.Tensor) and y.shape == x.shape, "shape:" + k,
                          lambda: "%s returned %s for input shape %s" % (k, getattr(y, "shape", type(y)), tuple(x.shape))):
             return
-        xs, ys = tu.npy(x).reshape(-1), tu.npy(y).reshape(-1)
+        xs, ys = tu.npy(x).reshape(-1).tolist(), tu.npy(y).reshape(-1).tolist()
         floor = 8 * float(np.finfo(np.dtype(dtype)).tiny) * max(1.0, float(ref.T), ref.vscale)
-        tols, refs = [], []
+        tols = []
         with mp.workdps(RK.DPS):
             for i, (xv, yv) in enumerate(zip(xs, ys)):
                 yr = ref.rho(mp.mpf(float(xv)))
                 tol = VAL_C * eps * (float(abs(yr)) + ref.vscale) + floor
-                tols.append(tol); refs.append(float(yr))
+                tols.append(tol)
                 if not rec.check(math.isfinite(yv), "nonfinite:" + key, "%s(%r) = %r (delta/a,b = %s)" % (k, xv, yv, spec["p"])):
                     return
                 err = float(abs(mp.mpf(float(yv)) - yr))
@@ -229,6 +232,9 @@ class Values(Sub):
             rec.notes["r_monotone"] = max(rec.notes.get("r_monotone", 0), d / t)
             rec.check(d <= t, "monotone:" + key, lambda: "%s%s not non-decreasing: k(%r)=%r > k(%r)=%r"
                       % (k, spec["p"], xs[a], ys[a], xs[b], ys[b]))
+
+    def valid(self, case):
+        return RK.in_domain(case["kernel"]) and all(0 <= v < math.inf for v in case["x"])
 
     def simplify(self, case):
         yield from _drop(case, "x", ("cls",))
@@ -273,6 +279,9 @@ class Reject(Sub):
             return
         rec.fail("accepts_negative:" + k, "%s%s accepted the negative input %s and returned %s"
                  % (k, spec["p"], case["x"], tu.npy(out).reshape(-1).tolist() if isinstance(out, torch.Tensor) else out))
+
+    def valid(self, case):
+        return RK.in_domain(case["kernel"]) and not any(v != v for v in case["x"])
 
     def simplify(self, case):
         n = len(case["x"])
@@ -321,7 +330,8 @@ class Correctors(Sub):
                     v = [r0 * t * a for a in u]
                 rows.append(gen.rnd_list(v, dtype)); cls.append(c)
             return {"kernel": spec, "dtype": dtype, "shape": shape, "R": rows, "cls": cls,
-                    "P": draw(st.integers(1, 4)), "seed": draw(st.integers(0, 2 ** 31 - 1))}
+                    "P": draw(st.integers(1, 4)), "seed": draw(st.integers(0, 2 ** 31 - 1)),
+                    "nograd": draw(st.sampled_from((True, True, False)))}
         return s()
 
     def oracle(self, case, rec):
@@ -344,6 +354,8 @@ class Correctors(Sub):
                 r1[i], r2[i] = float(d1), float(d2)
                 cond[i] = 1 + (float(abs(x * d2 / d1)) if d1 > 0 else 0.0) + ref.psens(x)
                 rcls.append("zero" if x == 0 else ref.curv_class(x, 8 * eps))
+                if x == ref.T:
+                    rec.label("row:|R|^2==T exactly")
         xs = (Rn ** 2).sum(1)
         rn, jn = np.sqrt(xs), np.sqrt((Jn ** 2).sum(1))                  # |R_i|, column norms of J_i  (n,P)
         g_ref = np.einsum("i,idp,id->p", r1, Jn, Rn)
@@ -353,8 +365,8 @@ class Correctors(Sub):
             rec.nt((k, dtype, tuple(sorted(rcls)), tuple(sorted(set(case["cls"]))), d, P, len(case["shape"])))
         out = {}
         for cname in ("FastTriggs", "Triggs"):
-            with _sut(rec, cname, fam if fam != "builtin" else k):
-                Rc, Jc = getattr(ppc, cname)(mod)(R=R, J=J)
+            with _sut(rec, cname, fam if fam != "builtin" else k), torch.set_grad_enabled(not case.get("nograd", True)):
+                Rc, Jc = getattr(ppc, cname)(mod)(R=R, J=J)          # optimizer.step calls it under no_grad
             if not rec.check(isinstance(Rc, torch.Tensor) and isinstance(Jc, torch.Tensor) and Rc.shape == R.shape
                              and Jc.shape == J.shape, "shape:" + cname, "%s returned shapes %s, %s for R %s, J %s"
                              % (cname, getattr(Rc, "shape", None), getattr(Jc, "shape", None), tuple(R.shape), tuple(J.shape))):
@@ -387,19 +399,24 @@ class Correctors(Sub):
             if rcls[i] == "pos":
                 rec.notes["r_hessian:" + dtype] = max(rec.notes.get("r_hessian:" + dtype, 0), eH)
                 rec.check(eH <= 1, "hessian:Triggs:%s:%s" % (fam, dtype),
-                          lambda: "Triggs(%s%s) row %d (R_i=%s, rho'=%r, rho''=%r>0): J'_i^T J'_i = %s, expected rho' J^T J + "
+                          lambda: "Triggs(%s%s) row %d (R_i=%s, rho'=%.6g, rho''=%.6g>0): J'_i^T J'_i = %s, expected rho' J^T J + "
                           "2 rho'' J^T R R^T J = %s (error/tol %.3g)" % (k, spec["p"], i, Rn[i].tolist(), r1[i], r2[i],
                                                                           H.tolist(), H_ref.tolist(), eH))
             elif rcls[i] in ("zero", "nonpos"):
                 rec.notes["r_same:" + dtype] = max(rec.notes.get("r_same:" + dtype, 0), eR, eJ)
                 rec.check(eR <= 1 and eJ <= 1, "same_as_fast:%s:%s" % (fam, dtype),
-                          lambda: "Triggs(%s%s) row %d (R_i=%s, rho''=%r, class %s) differs from FastTriggs: R' %s vs %s "
+                          lambda: "Triggs(%s%s) row %d (R_i=%s, rho''=%.6g, class %s) differs from FastTriggs: R' %s vs %s "
                           "(error/tol %.3g), J' error/tol %.3g" % (k, spec["p"], i, Rn[i].tolist(), r2[i], rcls[i],
                                                                   Rt[i].tolist(), Rf[i].tolist(), eR, eJ))
             else:                   # rho'' changes sign within rounding of x: either form is right
                 rec.check(eH <= 1 or (eR <= 1 and eJ <= 1), "ambiguous_row:%s:%s" % (fam, dtype),
                           lambda: "Triggs(%s%s) row %d (R_i=%s): neither the Triggs Hessian (error/tol %.3g) nor FastTriggs "
                           "(%.3g, %.3g)" % (k, spec["p"], i, Rn[i].tolist(), eH, eR, eJ))
+
+    def valid(self, case):
+        r0 = math.sqrt(_thr(case["kernel"])) if RK.in_domain(case["kernel"]) else 0.0
+        tmax = TMAX.get(case["kernel"]["k"], 30.0) * 1.001
+        return r0 > 0 and all(math.sqrt(sum(v * v for v in r)) <= tmax * r0 for r in case["R"])
 
     def simplify(self, case):
         n, d = len(case["R"]), len(case["R"][0])
